@@ -287,6 +287,17 @@ func (ks *c14Keys) get(kind, sc int, kseed []byte) (*c14Key, error) {
 		if !bytes.Equal(k.pub, priv.PublicKey().Bytes()) {
 			return nil, fmt.Errorf("ecdh public key differs from the model (scalar class %d)", sc)
 		}
+		// the application wipes the copies it was handed: the key object must not notice (Bytes returns a copy)
+		sb, pb := priv.Bytes(), priv.PublicKey().Bytes()
+		for i := range sb {
+			sb[i] = 0xEE
+		}
+		for i := range pb {
+			pb[i] = 0xEE
+		}
+		if !bytes.Equal(priv.Bytes(), k.scalar) || !bytes.Equal(priv.PublicKey().Bytes(), k.pub) {
+			return nil, fmt.Errorf("ecdh key object changed after the caller overwrote the slices returned by Bytes(): they alias the key's own storage")
+		}
 	case c14EC256, c14EC384:
 		if sc == c14ScFixture || sc == c14ScRand {
 			f := c14Fix.ec[kind-c14EC256]
